@@ -1,1 +1,140 @@
-def main : IO Unit := pure ()
+import NfcVerif.Model.HistC01
+open NfcVerif NfcVerif.Tlv NfcVerif.T34 NfcVerif.Hist
+
+/-!
+Line-protocol driver of the C02 history models (`NfcVerif.Hist`): assignments through ONE tag object, each completed
+or aborted by a fault on a state-changing command, with what a FRESH reader sees after EVERY attempt.
+
+  h12 <r|a> <t2|t1s|t1d> <mem> <attempts>     r: memory reader with fixes/C02/0002 (`historyR`), a: as found (`history`)
+  h3  <mem> <attempts>
+  h4  <var> <cc> <file> <fid> <mle> <mlc> <attempts>
+       -> <res> <cmds> <view> | <res> <cmds> <view> | ...        (none / exc Name when activation finds no NDEF)
+     attempts = <hex>:<n | l<k> | e<k>>,...   n: no fault, l<k>: command k not executed, e<k>: executed, answer lost
+     view = what a fresh activation reads from the tag after the attempt
+-/
+
+def cfgOf (k : String) : Option Cfg :=
+  if k = "t2" then some t2Cfg else if k = "t1s" then some (t1Cfg 1) else if k = "t1d" then some (t1Cfg 8) else none
+
+def insRange (r : Nat × Nat) : List (Nat × Nat) → List (Nat × Nat)
+  | [] => [r]
+  | x :: xs => if r.1 ≤ x.1 then r :: x :: xs else x :: insRange r xs
+
+def mergeRanges : List (Nat × Nat) → List (Nat × Nat)
+  | [] => []
+  | [x] => [x]
+  | x :: y :: rest => if y.1 ≤ x.2 then mergeRanges ((x.1, max x.2 y.2) :: rest) else x :: mergeRanges (y :: rest)
+termination_by l => l.length
+
+def canonSkip (s : Skip) : String :=
+  let rs := mergeRanges ((s.filter fun r => r.1 < r.2).foldr insRange [])
+  if rs.isEmpty then "-" else ",".intercalate (rs.map fun r => s!"{r.1}-{r.2}")
+
+def joinC (l : List String) : String := if l.isEmpty then "-" else ",".intercalate l
+
+def showRes : Py Unit → String
+  | .ok _ => "ok"
+  | .error (.tagCmd _) => "fail"
+  | .error e => "exc " ++ e.name
+
+/-- the reader of the present tree (`readBack`: TLVs that exceed the data area are not accepted) -/
+def showRead (c : Cfg) (m : Bytes) : String :=
+  match readBack c m with
+  | .error e => "exc " ++ e.name
+  | .ok none => "none"
+  | .ok (some L) =>
+    s!"L {L.off} {L.cap} {if L.readable then 1 else 0} {if L.writeable then 1 else 0} {L.areaEnd} {canonSkip L.skip} {toHex L.ndef}"
+
+def parseFault (s : String) : Option (Option Fault) :=
+  if s = "n" then some none
+  else match s.toList with
+    | 'l' :: r => (String.ofList r).toNat?.map fun k => some ⟨k, false⟩
+    | 'e' :: r => (String.ofList r).toNat?.map fun k => some ⟨k, true⟩
+    | _ => none
+
+def parseAttempts (s : String) : Option (List (Bytes × Option Fault)) :=
+  (s.splitOn ",").mapM fun a =>
+    match a.splitOn ":" with
+    | [d, f] => match parseHex d, parseFault f with
+      | some d, some f => some (d, f)
+      | _, _ => none
+    | _ => none
+
+def showCmds (cs : List Cmd) : String := joinC (cs.map fun x => s!"{x.1}:{toHex x.2}")
+
+/-- attempt by attempt on the repaired reader: (commands, outcome, tag afterwards) -/
+def stepsR (c : Cfg) (L : Layout) : RSR → List (Bytes × Option Fault) → List (List Cmd × Py Unit × Bytes)
+  | _, [] => []
+  | st, (d, f) :: rest => let a := attemptR c L st d f; (a.cmds, a.res, a.st.tag) :: stepsR c L a.st rest
+
+def stepsA (c : Cfg) (L : Layout) : RS → List (Bytes × Option Fault) → List (List Cmd × Py Unit × Bytes)
+  | _, [] => []
+  | st, (d, f) :: rest => let a := attempt c L st d f; (a.cmds, a.res, a.st.tag) :: stepsA c L a.st rest
+
+def h12 (rep : Bool) (c : Cfg) (m : Bytes) (atts : List (Bytes × Option Fault)) : String :=
+  match readNdef c m with
+  | .error e => "exc " ++ e.name
+  | .ok none => "none"
+  | .ok (some L) =>
+    let steps := if rep then stepsR c L (freshR m) atts else stepsA c L (fresh m) atts
+    -- the theorems speak about `historyR` / `history`: same final tag, same record
+    let fin : Bytes × List (List Cmd × Py Unit) :=
+      if rep then (let x := historyR c L (freshR m) atts; (x.1.tag, x.2))
+      else (let x := history c L (fresh m) atts; (x.1.tag, x.2))
+    let last := match steps.getLast? with | some s => s.2.2 | none => m
+    if last ≠ fin.1 ∨ (steps.map fun s => (s.1, s.2.1)) ≠ fin.2 then "driver-inconsistent" else
+    " | ".intercalate (steps.map fun s => s!"{showRes s.2.1} {showCmds s.1} {showRead c s.2.2}")
+
+def stepsT3 (seen : Seen) : Bytes → List (Bytes × Option Fault) → List (List T3.WCmd × Py Unit × Bytes)
+  | _, [] => []
+  | m, (d, f) :: rest => let t := t3Attempt seen m d f; (t.sent, t.res, t.mem) :: stepsT3 seen t.mem rest
+
+def h3 (m : Bytes) (atts : List (Bytes × Option Fault)) : String :=
+  match T3.readNdef m with
+  | .error e => "exc " ++ e.name
+  | .ok none => "none"
+  | .ok (some nd) =>
+    let steps := stepsT3 nd.seen m atts
+    let fin := t3History nd.seen m atts
+    let last := match steps.getLast? with | some s => s.2.2 | none => m
+    if last ≠ fin.1 then "driver-inconsistent" else
+    " | ".intercalate (steps.map fun s =>
+      showRes s.2.1 ++ " " ++ joinC (s.1.map fun c => s!"{c.blk}+{c.n}:{toHex c.data}") ++ " " ++ showPy showSeen (T3.see s.2.2))
+
+def parseVar (s : String) : Option T4.Variant :=
+  match s.toList with
+  | [a, b, c] => some ⟨a = '1', b = '1', c = '1'⟩
+  | _ => none
+
+def stepsT4 (v : T4.Variant) (cd : T4.Card) (nd : T4.Ndef) :
+    Bytes → List (Bytes × Option Fault) → List (List T4.UCmd × Py Unit × Bytes)
+  | _, [] => []
+  | g, (d, f) :: rest => let t := t4Attempt v cd nd g d f; (t.sent, t.res, t.file) :: stepsT4 v cd nd t.file rest
+
+def h4 (v : T4.Variant) (cd : T4.Card) (atts : List (Bytes × Option Fault)) : String :=
+  match T4.readNdef v cd with
+  | .error e => "exc " ++ e.name
+  | .ok none => "none"
+  | .ok (some nd) =>
+    let steps := stepsT4 v cd nd cd.file atts
+    let fin := t4History v cd nd cd.file atts
+    let last := match steps.getLast? with | some s => s.2.2 | none => cd.file
+    if last ≠ fin.1 then "driver-inconsistent" else
+    " | ".intercalate (steps.map fun s =>
+      showRes s.2.1 ++ " " ++ joinC (s.1.map fun c => s!"{c.off}:{toHex c.data}") ++ " "
+        ++ showPy showSeen (T4.see v { cd with file := s.2.2 }))
+
+def handle (line : String) : String :=
+  match line.splitOn " " with
+  | ["h12", r, k, mh, a] => match cfgOf k, parseHex mh, parseAttempts a with
+    | some c, some m, some a => if r = "r" then h12 true c m a else if r = "a" then h12 false c m a else "bad-op"
+    | _, _, _ => "bad-op"
+  | ["h3", mh, a] => match parseHex mh, parseAttempts a with
+    | some m, some a => h3 m a | _, _ => "bad-op"
+  | ["h4", v, cc, f, fid, e, c, a] =>
+    match parseVar v, parseHex cc, parseHex f, parseHex fid, e.toNat?, c.toNat?, parseAttempts a with
+    | some v, some cc, some f, some fid, some e, some c, some a => h4 v ⟨cc, f, fid, e, c⟩ a
+    | _, _, _, _, _, _, _ => "bad-op"
+  | _ => "bad-op"
+
+def main : IO Unit := runDriver handle
